@@ -152,6 +152,10 @@ def plane_normal(ctx):
         def ishexagonal(self, *a, **k):
             return self.hexagonal
 
+        def iscubic(self, *a, **k):
+            return False
+        alpha, beta, gamma = sp.Symbol('alpha_deg', positive=True), sp.Symbol('beta_deg', positive=True), sp.Symbol('gamma_deg', positive=True)
+
     def norm_(v, **k):
         v = [sp.expand(x) for x in np.ravel(v)]
         return NRM(*v)
@@ -208,14 +212,30 @@ def plane_normal(ctx):
     base = np.array([[R(7, 2), 0, 0], [R(-3, 10), R(18, 5), 0], [R(1, 5), R(-1, 10), R(41, 10)]], dtype=object)
     hkls = [[-2, 1, -2], [1, 0, 0], [0, 1, 1], [3, -1, 2]]
 
-    def at_scale(sc, hkl):
-        Vs = base * sc
+    def at_scale(sc, hkl, cell=None):
+        Vs = (base if cell is None else cell) * sc
+
+        def _ang(u, v):
+            c_ = sp.nsimplify(u.dot(v)) / sp.sqrt(sp.nsimplify(u.dot(u)) * sp.nsimplify(v.dot(v)))
+            return sp.Integer(90) if c_ == 0 else sp.acos(c_) * 180 / sp.pi
 
         class Bs(PyStub):
             vects = property(lambda self: Vs.copy())
+            avect = property(lambda self: Vs[0].copy())
+            bvect = property(lambda self: Vs[1].copy())
+            cvect = property(lambda self: Vs[2].copy())
+            a = property(lambda self: sp.sqrt(Vs[0].dot(Vs[0])))
+            b = property(lambda self: sp.sqrt(Vs[1].dot(Vs[1])))
+            c = property(lambda self: sp.sqrt(Vs[2].dot(Vs[2])))
+            alpha = property(lambda self: _ang(Vs[1], Vs[2]))
+            beta = property(lambda self: _ang(Vs[0], Vs[2]))
+            gamma = property(lambda self: _ang(Vs[0], Vs[1]))
 
             def ishexagonal(self, *a, **k):
                 return False
+
+            def iscubic(self, *a, **k):
+                return bool(all(Vs[i, j] == 0 for i in range(3) for j in range(3) if i != j) and Vs[0, 0] == Vs[1, 1] == Vs[2, 2])
         ev = SymEval(module_aliases(ctx.mod(MIL)))
         ev.np_override = {'numpy.lcm': lambda a, b: sp.Integer(math.lcm(int(a), int(b))), 'numpy.lcm.reduce': lambda a: sp.Integer(math.lcm(*[int(x) for x in a]))}
         try:
@@ -236,6 +256,16 @@ def plane_normal(ctx):
         ctx.ob('PLANE-NORMAL', loc, '(%s) in a triclinic cell: the same unit normal whatever the unit of length (cell scaled by 1e-4, 1e-10, 1e+6)' % ' '.join(map(str, hkl)), not bad,
                '; '.join(bad)[:300] + ' [at scale 1: %s]' % ([str(sp.N(x, 6)) for x in ref] if ref is not None and not isinstance(ref, str) else ref), node=outer, key='scale %s' % (hkl,))
 
+    # orthogonal cells that are not cubic: the normal of (hkl) is along (h/a, k/b, l/c), not along (h, k, l)
+    for cname, cell in (('tetragonal 3 x 3 x 47/10', np.array([[3, 0, 0], [0, 3, 0], [0, 0, R(47, 10)]], dtype=object)), ('orthorhombic 3 x 4 x 5', np.array([[3, 0, 0], [0, 4, 0], [0, 0, 5]], dtype=object))):
+        for hkl in ([1, 1, 1], [-3, -3, -3], [2, 0, 1]):
+            got = at_scale(sp.Integer(1), hkl, cell)
+            g = np.array([sp.nsimplify(h_) / cell[i, i] for i, h_ in enumerate(hkl)], dtype=object)
+            want = g / sp.sqrt(sum(x ** 2 for x in g))
+            ok = got is not None and not isinstance(got, str) and np.shape(got) == (3,) and all(abs(float(sp.N(sp.sympify(a_) - b_, 30))) < 1e-12 for a_, b_ in zip(got, want))
+            n += 1
+            ctx.ob('PLANE-NORMAL', loc, '%s cell, (%s): the unit normal is along (h/a, k/b, l/c)' % (cname, ' '.join(map(str, hkl))), bool(ok),
+                   'got %s, expected %s' % (got if isinstance(got, str) or got is None else [str(sp.N(x, 6)) for x in got], [str(sp.N(x, 6)) for x in want]), node=outer, key='orthogonal %s %s' % (cname[:5], hkl))
     ctx.floor('PLANE-NORMAL', n, 26)
     # batches, Miller-Bravais input, refusals
     got, why = run(arr([[2, 3, 5], [0, -3, 0]]))
@@ -429,9 +459,33 @@ def index_types(ctx):
     lints.fresh_results(ctx, 'FRESH-RESULTS', MIL, floor=11)
 
 
+def angle_scale(ctx, rule='FAMILY'):
+    """vect_angle (behind the cell angles the family predicates and the hexagonal tests read): the angle between two vectors does not depend on the unit of length"""
+    VA = 'atomman/tools/vect_angle.py'
+    fn = ctx.fn(VA, 'vect_angle')
+    loc = VA + '::vect_angle'
+    R = sp.Rational
+    for tag, a, b, want in (('the a and b vectors of a hexagonal cell', [1, 0, 0], [R(-1, 2), sp.sqrt(3) / 2, 0], 120), ('two vectors 60 degrees apart', [2, 0, 0], [R(1, 2), 0, sp.sqrt(3) / 2], 60),
+                            ('perpendicular vectors', [0, 3, 0], [0, 0, 5], 90)):
+        bad = []
+        for sc in (sp.Integer(1), R(1, 10 ** 10), sp.Integer(10 ** 8)):
+            ev = SymEval(module_aliases(ctx.mod(VA)))
+            try:
+                live = [q for q in ev.run_fn(fn, [arr([x * sc for x in a]), arr([x * sc for x in b])], {}) if q.done == 'return']
+                got = live[0].ret if len(live) == 1 else None
+                okv = got is not None and abs(float(sp.N(sp.sympify(got) - want, 30))) < 1e-9
+            except WouldRaise as e:
+                got, okv = 'raises: %s' % e, False
+            except Opaque as e:
+                raise AnalysisError('vect_angle on concrete vectors: %s' % e)
+            if not okv:
+                bad.append('lengths x %s: %s' % (sc, got if isinstance(got, str) else (None if got is None else sp.N(got, 8))))
+        ctx.ob(rule, loc, '%s: %d degrees whatever the unit of length (vectors scaled by 1, 1e-10, 1e+8)' % (tag, want), not bad, '; '.join(bad), node=fn, key='angle ' + tag[:30])
+
+
 def run(ctx):
     ctx.explanation = ('C16: the index conversion functions are evaluated on symbolic indices and compared with their defining linear maps; the plane-normal table is evaluated for '
                        'all 26 zero/sign patterns and shown to give the +g direction by exact rational algebra; the centering tables are checked as exact rational matrices; '
                        'reduce/all_indices/fromstring are evaluated on model inputs; family predicates are evaluated on the equality pattern of each constructor\'s generic member. '
                        'Not decided: tolerance behaviour near coincident parameters.')
-    ctx.run_rules([map34, plane_normal, centering, util, family, index_types])
+    ctx.run_rules([map34, plane_normal, centering, util, family, index_types, angle_scale])
